@@ -406,6 +406,34 @@ func pmCorpus(t *tr.Trace) {
 			h.dump()
 		}
 	}
+	// sparse drops over more than a full cycle of sequence numbers: every
+	// interval is short-lived as the newest one, so nothing is retired, and
+	// after 2^16 packets the ring holds intervals a whole cycle old; late
+	// copies of recently withheld packets (they fall in the GAP between two
+	// intervals, where the backwards walk must stop) and of their neighbours
+	for _, period := range []int{1000, 640} {
+		h := newPmHist(t, fmt.Sprintf("corpus-sparse-drops-full-cycle-%d", period))
+		r := int64(1<<20 + 77)
+		var dropped []int64
+		for j := 0; j < 72000; j++ {
+			d := j%period == period-1
+			if d {
+				dropped = append(dropped, r)
+			}
+			h.arrive(r, 0, d)
+			r++
+			if j > 50000 && j%period == 5 {
+				for k := len(dropped) - 1; k >= 0 && r-dropped[k] < 8000; k-- {
+					h.arrive(dropped[k], 0, false)
+					h.arrive(dropped[k]-1, 0, false)
+					h.arrive(dropped[k]+1, 0, false)
+					h.reverse(uint16(h.ref.out(dropped[k] + 1)))
+					h.reverse(uint16(h.ref.out(dropped[k]+1) - 1))
+				}
+			}
+		}
+		h.dump()
+	}
 	// F12(b): a very long run of consecutive withheld packets
 	for _, run := range []int{57400, 65000, 70000} {
 		h := newPmHist(t, fmt.Sprintf("corpus-F12b-%d", run))
